@@ -499,9 +499,17 @@ func Gen(seed uint64, prop, tier string) *Spec {
 			q.Body = ""
 		}
 	}
+	// now and then a large body (limits, buffers and partial reads only show with size)
+	if q.BodyMode == "stream" && (d.BodyKind == "text" || d.BodyKind == "") && r.Chance(1, 40) {
+		q.Body = q.Body + strings.Repeat(" big"+rq[:4], simfw.Pick(r, []int{9000, 9000, 150000}))
+		s.ReadBuf = 4096
+	}
 	if q.BodyMode == "stream" {
 		fault := prop != "" && r.Chance(1, 6) && len(q.Body) > 1
 		q.Chunk = chunkPlan(r, len(q.Body), fault)
+		if len(q.Body) > 50000 {
+			q.Chunk.Sizes = simfw.Pick(r, [][]int{nil, {4096}, {65536, 1, 70000}, {32768}})
+		}
 		if fault {
 			s.Again = true
 		}
@@ -590,8 +598,21 @@ func genResponse(r *simfw.RNG, s *Spec) {
 		}
 	}
 	s.Vals = []ValOpts{{MultiError: r.Chance(1, 3), ExcludeRespBody: r.Chance(1, 8), IncludeStatus: r.Chance(1, 3)}}
+	if bodyCT == "text/plain" && r.Chance(1, 10) || r.Chance(1, 60) && strings.HasSuffix(p.Body, "}") {
+		// a large body
+		n := simfw.Pick(r, []int{9000, 9000, 150000})
+		if bodyCT == "text/plain" {
+			p.Body += strings.Repeat(" big"+mk[:4], n)
+		} else if strings.Contains(p.Body, mk) {
+			p.Body = strings.Replace(p.Body, mk, mk+strings.Repeat(" big", n), 1)
+		}
+		s.ReadBuf = 4096
+	}
 	fault := r.Chance(1, 6) && len(p.Body) > 1
 	p.Chunk = chunkPlan(r, len(p.Body), fault)
+	if len(p.Body) > 50000 {
+		p.Chunk.Sizes = simfw.Pick(r, [][]int{nil, {4096}, {65536, 1, 70000}, {32768}})
+	}
 	if fault {
 		s.Again = true
 	}
